@@ -363,7 +363,7 @@ func TestPropRich(t *testing.T) {
 	registerAll()
 	ev.Rapid(t, "rich", ev.N(5000, 40000), func(t *rapid.T) Case {
 		mp := gen.Project(t, gen.ProjectOpts{KeyType: true, RegexType: true, Container: true, EnumNotes: true, Satisfied: rapid.Bool().Draw(t, "satisfied")})
-		sp := mp.Text(gen.Layout(t, gen.LayoutOpts{}))
+		sp := mp.Text(gen.Layout(t, gen.LayoutOpts{Esc: 2}))
 		return Case{Entry: "project", Project: &sp}
 	}, judgedRich)
 	ev.UnguardFast()
